@@ -4,12 +4,16 @@ import difflib, sys
 name = sys.argv[1]
 args = sys.argv[2:]
 out = []
+texts = {}
 for i in range(0, len(args), 3):
     f, old, new = args[i:i + 3]
     old = old.encode().decode("unicode_escape"); new = new.encode().decode("unicode_escape")
+    orig = open(f"/repo/{f}").read()
+    cur = texts.get(f, orig)
+    assert cur.count(old) >= 1, f"old string not found in {f}"
+    texts[f] = cur.replace(old, new, 1)
+for f, t in texts.items():
     s = open(f"/repo/{f}").read()
-    assert s.count(old) >= 1, f"old string not found in {f}"
-    t = s.replace(old, new, 1)
     out += list(difflib.unified_diff(s.splitlines(True), t.splitlines(True), f"a/{f}", f"b/{f}"))
 open(f"/verif/mutants/{name}.patch", "w").write("".join(out))
 print("".join(out))
